@@ -21,6 +21,7 @@ import (
 	"sync"
 	"sync/atomic"
 	"time"
+	"unsafe"
 )
 
 type opKind int
@@ -84,6 +85,7 @@ type Sched struct {
 	threads []*thread
 	toSched chan *thread
 	closed  map[uintptr]bool
+	keep    []reflect.Value // closed channels are kept alive so that their address cannot be reused within the run
 	devs    []Dev
 	devIdx  int
 	pos     int
@@ -247,6 +249,7 @@ func (s *Sched) isClosed(ch reflect.Value) bool {
 		chosen, _, ok := reflect.Select([]reflect.SelectCase{{Dir: reflect.SelectRecv, Chan: ch}, {Dir: reflect.SelectDefault}})
 		if chosen == 0 && !ok {
 			s.closed[ch.Pointer()] = true
+			s.keep = append(s.keep, ch)
 			return true
 		}
 	}
@@ -256,11 +259,7 @@ func (s *Sched) isClosed(ch reflect.Value) bool {
 func (s *Sched) caseReady(c selCase) bool {
 	switch cc := c.(type) {
 	case recvAny:
-		v := cc.chanValue()
-		if !v.IsValid() || v.IsNil() {
-			return false
-		}
-		return v.Len() > 0 || s.isClosed(v)
+		return cc.ready(s)
 	case *SCase:
 		v := reflect.ValueOf(cc.ch)
 		if !v.IsValid() || v.IsNil() {
@@ -497,10 +496,12 @@ func (s *Sched) teardown() {
 // ---- ops ----
 
 type RCase[T any] struct {
-	ch  <-chan T
-	Val T
-	Ok  bool
-	idx int
+	ch          <-chan T
+	Val         T
+	Ok          bool
+	idx         int
+	ptr         uintptr
+	closedKnown bool
 }
 type SCase struct {
 	ch any
@@ -513,15 +514,51 @@ func (*SCase) isCase()    {}
 
 type recvAny interface {
 	chanValue() reflect.Value
+	ready(s *Sched) bool
 	recvNow()
 	setIndex(int)
 	getIndex() int
 }
 
 func (r *RCase[T]) chanValue() reflect.Value { return reflect.ValueOf(r.ch) }
-func (r *RCase[T]) recvNow()                 { r.Val, r.Ok = <-r.ch }
-func (r *RCase[T]) setIndex(i int)           { r.idx = i + 1 }
-func (r *RCase[T]) getIndex() int            { return r.idx - 1 }
+
+// ready: typed fast path of caseReady for receive cases (no reflection on the hot path).
+func (r *RCase[T]) ready(s *Sched) bool {
+	if r.ch == nil {
+		return false
+	}
+	if len(r.ch) > 0 {
+		return true
+	}
+	if r.closedKnown {
+		return true
+	}
+	if r.ptr == 0 {
+		r.ptr = reflect.ValueOf(r.ch).Pointer()
+	}
+	if s.closed[r.ptr] {
+		r.closedKnown = true
+		return true
+	}
+	var z T
+	if cap(r.ch) == 0 && unsafe.Sizeof(z) == 0 {
+		// signal-only channel: closed by uninstrumented code (context cancellation), never carries values
+		select {
+		case _, ok := <-r.ch:
+			if !ok {
+				s.closed[r.ptr] = true
+				s.keep = append(s.keep, reflect.ValueOf(r.ch))
+				r.closedKnown = true
+				return true
+			}
+		default:
+		}
+	}
+	return false
+}
+func (r *RCase[T]) recvNow()       { r.Val, r.Ok = <-r.ch }
+func (r *RCase[T]) setIndex(i int) { r.idx = i + 1 }
+func (r *RCase[T]) getIndex() int  { return r.idx - 1 }
 
 func RecvCase[T any](ch <-chan T) *RCase[T] { return &RCase[T]{ch: ch} }
 func SendCase(ch any, do func()) *SCase     { return &SCase{ch: ch, do: do} }
@@ -593,7 +630,9 @@ func Close(ch any, do func()) {
 	}
 	t.kind = opClose
 	s.point(t)
-	s.closed[reflect.ValueOf(ch).Pointer()] = true
+	v := reflect.ValueOf(ch)
+	s.closed[v.Pointer()] = true
+	s.keep = append(s.keep, v)
 	do()
 }
 
@@ -666,6 +705,16 @@ func Choose(n int, label string) int {
 		return 0
 	}
 	return s.choose('e', n, false, func() string { return label })
+}
+
+// ChooseFree is a choice that belongs to the *configuration* of the run rather than to its schedule (which
+// input sequence, which scenario): the explorer enumerates all n alternatives without charging a deviation.
+func ChooseFree(n int, label string) int {
+	s, _ := active()
+	if s == nil {
+		return 0
+	}
+	return s.choose('f', n, false, func() string { return label })
 }
 
 // Perm returns a permutation of [0,n) chosen by the explorer; the default is the identity.
